@@ -2,7 +2,7 @@
 # usage: scripts/try.sh <patch> <Cxx> [<Cxx>...]  — apply patch to /repo, run checks, ALWAYS restore /repo.
 set -u
 patch="$(realpath "$1")"; shift
-cd /repo || exit 2
+mkdir -p /tmp/tryverif; cp /verif/known_findings.json /tmp/tryverif/; cd /repo || exit 2
 if [ -n "$(git status --porcelain --untracked-files=no)" ]; then echo "/repo not clean"; exit 2; fi
 git apply "$patch" || { echo "patch does not apply: $patch"; exit 3; }
 trap 'git -C /repo checkout -- . ; git -C /repo clean -fdq' EXIT
